@@ -184,8 +184,33 @@ def gen_script(rng, logic=None, incremental=False, options=(), produce_models=Tr
     ncheck = 0
     nm = [0]
 
+    def special():
+        """top-level shapes the preprocessing has dedicated code for: defining equalities (substitution), unit literals,
+        Boolean definitions, equality diamonds (learnt transitivity), nested ite, wide distinct"""
+        k = rng.random()
+        if k < 0.3 and g.num and not g.dl:
+            return "(= %s %s)" % (rng.choice(g.numvars), g.nterm(2))
+        if k < 0.4 and g.usort:
+            return "(= %s %s)" % (rng.choice(g.uvars), g.uterm(2))
+        if k < 0.55:
+            b = rng.choice(g.boolvars)
+            return rng.choice([b, "(not %s)" % b, "(= %s %s)" % (b, g.formula(2))])
+        if k < 0.75 and g.usort and len(g.uvars) >= 3:
+            vs = [rng.choice(g.uvars) for _ in range(4)]
+            x, w, y, z = vs
+            dia = "(and (= %s %s) (= %s %s)) (and (= %s %s) (= %s %s))" % (x, w, w, z, x, y, y, z)
+            extra = "" if rng.random() < 0.5 else " " + g.formula(1)
+            return "(or %s%s)" % (dia, extra)
+        if k < 0.85 and g.num and not g.dl:
+            return "(%s (ite %s (ite %s %s %s) %s) %s)" % (rng.choice(["<=", "=", "<"]), g.formula(1), g.formula(1), g.nterm(1), g.nterm(1), g.nterm(1), g.nterm(1))
+        if g.usort and len(g.uvars) >= 3:
+            return "(distinct %s)" % " ".join(g.uterm(1) for _ in range(rng.randint(3, 5)))
+        if g.num and not g.dl:
+            return "(distinct %s)" % " ".join(g.nterm(1) for _ in range(3))
+        return g.formula(2)
+
     def one_assert():
-        f = g.formula(depth)
+        f = special() if rng.random() < 0.3 else g.formula(depth)
         if named and rng.random() < 0.7:
             nm[0] += 1
             return "(assert (! %s :named n%d))" % (f, nm[0])
